@@ -439,6 +439,61 @@ pub fn generate(run_seed: u64, _index: u64) -> Case {
                 bytes.extend(rng.pick(&corp).clone());
             }
         }
+        6 if rng.chance(1, 2) => {
+            // exactly one translation window (64 bytes), control transfers packed at its end
+            kind = "window64".into();
+            let tail_units = rng.range(1, 4);
+            let branch_unit = |rng: &mut Rng, at: u64| -> Vec<u8> {
+                let s = match rng.below(4) {
+                    0 if asm::has_cond(arch) => Slot::Cond {
+                        cc: rng.below(asm::num_cc(arch) as u64) as u8,
+                        a: rng.below(8) as u8,
+                        b: rng.below(8) as u8,
+                        target: 0,
+                        short: rng.chance(1, 2),
+                        delay: None,
+                    },
+                    1 => Slot::Jump { target: 0, short: rng.chance(1, 2), delay: None },
+                    2 => Slot::Call { target: 0, delay: None },
+                    _ => Slot::Term { kind: rng.below(3) as u8, a: rng.below(8) as u8, delay: None },
+                };
+                let mut b = asm::encode(arch, &s, at, at.wrapping_add(rng.below(64)) & !(arch.insn_align() - 1));
+                if arch.is_mips() {
+                    b.truncate(4); // the delay slot is whatever comes next
+                }
+                b
+            };
+            let mut tail: Vec<u8> = Vec::new();
+            for _ in 0..tail_units {
+                let at = address + 64 - 16 + tail.len() as u64;
+                if rng.chance(3, 4) {
+                    tail.extend(branch_unit(&mut rng, at));
+                } else {
+                    tail.extend(unit_from_forms(&mut rng, arch, at));
+                }
+            }
+            tail.truncate(64);
+            while bytes.len() + tail.len() < 64 {
+                let at = address + bytes.len() as u64;
+                let u = if rng.chance(1, 2) {
+                    asm::encode(arch, &Slot::Pad(1), at, at)
+                } else {
+                    unit_from_forms(&mut rng, arch, at)
+                };
+                if bytes.len() + u.len() + tail.len() > 64 {
+                    bytes.extend(asm::encode(arch, &Slot::Pad(1), at, at));
+                } else {
+                    bytes.extend(u);
+                }
+            }
+            bytes.truncate(64 - tail.len());
+            bytes.extend(tail);
+            if rng.chance(1, 4) {
+                // and sometimes a few bytes more or less than a full window
+                let n = (bytes.len() as i64 + rng.range(0, 8) as i64 - 4).max(0) as usize;
+                bytes.resize(n, 0);
+            }
+        }
         6 => {
             kind = "forms".into();
             for _ in 0..rng.range(1, 10) {
